@@ -10,7 +10,7 @@ import (
 func init() {
 	register(&Prop{
 		ID: "C05", Level: "exploration",
-		Rule: "one case = 1-3 writer tasks (single Handle/Update/Delete and multi-route transactions ended by commit, abort, error or injected panic) and 1-3 reader tasks (ServeHTTP with yields inside the handler, Lookup, Reverse, Has, Route, Len, Iter.All, View) on 3-6 keys that share tree nodes, every written route carrying a unique tag; the seeded scheduler decides every switch at the fox yield points (acquire, locked, before/after load, commit, stored, unlocked, abort) and at harness yields; the recorded invoke/return history plus a final audit is checked with porcupine against a sequential map + reference dispatcher; any panic is a violation; in HB mode the same schedules run under the race detector with simulator hand-offs hidden. Non-trivial: at least one context switch happened while a writer was between lock and unlock or a reader was parked between its tree load and its use; distinct = hash of (programs, schedule).",
+		Rule: "one case = 1-3 writer tasks (single Handle/Update/Delete and multi-route transactions ended by commit, abort, error or injected panic) and 1-3 reader tasks (ServeHTTP with yields inside the handler, Lookup, Reverse, Has, Route, Len, Iter.All, one Iter.Routes sequence ranged twice, View) on 3-8 keys that share tree nodes, every written route carrying a unique tag; one run in six works on a tree deeper than 25 levels (a ballast chain of nested prefixes, which switches iterators and the backtracking stack to their heap-sized path); the seeded scheduler decides every switch at the fox yield points (acquire, locked, before/after load, commit, stored, unlocked, abort) and at harness yields; the recorded invoke/return history plus a final audit is checked with porcupine against a sequential map + reference dispatcher; any panic is a violation; in HB mode the same schedules run under the race detector with simulator hand-offs hidden. Non-trivial: at least one context switch happened while a writer was between lock and unlock or a reader was parked between its tree load and its use; distinct = hash of (programs, schedule).",
 		Run:  runC05, HBRun: runC05,
 		Quick: 96000, Thorough: 16000000, QuickHB: 12000, ThoroughHB: 1600000,
 		Real: commonReal, Stub: commonStub,
